@@ -29,7 +29,7 @@ class Experiment:
         self.datatype = datatype
         self.inst = {}
         for i in range(instruments):
-            fl = ['FL1', 'FL2', 'FL3'] if i == 0 else ['GFP-A', 'PE-Texas Red-A']      # channel names may contain blanks
+            fl = ['FL1', 'FL2', 'FL3'] if i == 0 else ['GFP-A', 'PE-Texas Red (B610)-A']      # channel names may contain blanks, parentheses and other punctuation
             self.inst['FC%03d' % (i + 1)] = {'fsc': 'FSC' if i == 0 else 'FSC-A', 'ssc': 'SSC' if i == 0 else 'SSC-A', 'fl': fl,
                                             'time': 'TIME' if i == 0 else 'Time'}
         if wide:
@@ -45,7 +45,7 @@ class Experiment:
         rows = []
         for iid, d in self.inst.items():
             rows.append({'ID': iid, 'Description': 'cytometer ' + iid, 'Forward Scatter Channel': d['fsc'], 'Side Scatter Channel': d['ssc'],
-                         'Fluorescence Channels': ', '.join(d['fl']), 'Time Channel': d['time']})
+                         'Fluorescence Channels': getattr(self, 'fl_pad', ('', ''))[0] + ', '.join(d['fl']) + getattr(self, 'fl_pad', ('', ''))[1], 'Time Channel': d['time']})
         return pd.DataFrame(rows).set_index('ID')
 
     def write_fcs(self, name, iid, kind='cells', n=600, voltage=450, log_fl=True, seed=0, linear_scatter=False, nonneg=False, scatter_out=False, time_order='sorted', voltages=None):
